@@ -98,6 +98,11 @@ func runC12(c *ev.Case, ctx *lib.Ctx, sc c12Script) {
 	settings := &sm.Settings{OriginHost: "cli.local", OriginRealm: "realm.local", VendorID: 13, ProductName: "verif", OriginStateID: 7}
 	conf := []datatype.Address{datatype.Address(net.IP{192, 0, 2, 9}), datatype.Address(net.ParseIP("2001:db8::9"))}
 	settings.HostIPAddresses = conf[:sc.nAddrs]
+	if sc.nAddrs == 1 && (c.I/5)%2 == 1 {
+		// the same configuration through the deprecated singular field
+		settings.HostIPAddresses, settings.HostIPAddress = nil, conf[0]
+		c.Class("configured-through-deprecated-HostIPAddress")
+	}
 	machine := sm.New(settings)
 	var mu sync.Mutex
 	answers := 0
